@@ -99,6 +99,63 @@ func init() {
 		w.Close()
 		return hx(buf.String())
 	}
+	// csmulti text (idx signedtext)* -> a clearsigned document framing `text` whose ONE signature armor holds several
+	// signature packets: packet i is key idx_i's signature over signedtext_i (each made with clearsign.Encode and taken
+	// out of its own armor).  OpenPGP allows several signatures in one armor (key transitions, co-signed uploads).
+	ops["csmulti"] = func(a []string) string {
+		frame := func(idx, text string) (*clearsign.Block, []byte, bool) {
+			e := loadKeys()[int(idx[0]-'0')]
+			var buf bytes.Buffer
+			w, err := clearsign.Encode(&buf, e.PrivateKey, pgpConfig())
+			if err != nil {
+				return nil, nil, false
+			}
+			w.Write([]byte(text))
+			w.Close()
+			b, _ := clearsign.Decode(buf.Bytes())
+			if b == nil {
+				return nil, nil, false
+			}
+			pk, err := ioutil.ReadAll(b.ArmoredSignature.Body)
+			if err != nil {
+				return nil, nil, false
+			}
+			return b, pk, true
+		}
+		if len(a) < 3 {
+			return "bad-arg"
+		}
+		var doc bytes.Buffer
+		_, _, ok := frame(a[1], a[0])
+		if !ok {
+			return "err"
+		}
+		// the framing of the text itself (header, dash-escaped body) from a signing of that text
+		e := loadKeys()[int(a[1][0]-'0')]
+		var whole bytes.Buffer
+		w, _ := clearsign.Encode(&whole, e.PrivateKey, pgpConfig())
+		w.Write([]byte(a[0]))
+		w.Close()
+		cut := bytes.Index(whole.Bytes(), []byte("-----BEGIN PGP SIGNATURE-----"))
+		if cut < 0 {
+			return "err"
+		}
+		doc.Write(whole.Bytes()[:cut])
+		aw, err := armor.Encode(&doc, "PGP SIGNATURE", nil)
+		if err != nil {
+			return "err"
+		}
+		for i := 1; i+1 < len(a); i += 2 {
+			_, pk, ok := frame(a[i], a[i+1])
+			if !ok {
+				return "err"
+			}
+			aw.Write(pk)
+		}
+		aw.Close()
+		doc.WriteString("\n")
+		return hx(doc.String())
+	}
 	// csseq (keyring input)* -> ONE EntityList variable whose contents are replaced in place before each read (the
 	// reader is always given the same pointer); each read answers for the keyring as it is at that moment
 	ops["csseq"] = func(a []string) string {
